@@ -7,6 +7,7 @@ Implements many of the main functions used to call PROPKA.
 
 import logging
 import argparse
+from decimal import Decimal
 from pathlib import Path
 from typing import Dict, Iterable, Iterator, List, TYPE_CHECKING, NoReturn, Optional, Tuple, TypeVar
 
@@ -145,10 +146,17 @@ def make_grid(min_: Number, max_: Number, step: Number) -> Iterator[Number]:
         max_:  maximum value of grid
         step:  grid step size
     """
-    x = min_
-    while x <= max_:
-        yield x
-        x += step
+    # Step in exact decimal arithmetic: accumulating binary floats with
+    # ``x += step`` drifts, which shifts grid points (e.g. 13.999999999999966)
+    # and drops the end point for steps such as 0.1.
+    to_number = int if all(
+        isinstance(v, int) for v in (min_, max_, step)) else float
+    dec_min, dec_max, dec_step = (
+        Decimal(str(v)) for v in (min_, max_, step))
+    index = 0
+    while dec_min + index * dec_step <= dec_max:
+        yield to_number(dec_min + index * dec_step)
+        index += 1
 
 
 def generate_combinations(interactions: Iterable[T]) -> List[List[T]]:
